@@ -63,7 +63,10 @@ def run(chk):
         lo, hi = H.random_box(rng, n, nice=True)
         case = {'n': n, 'lo': lo, 'hi': hi, 'r': rng.choice([2.5, 3.5]), 'eps': 0.01, 'iters': 80, 'density': None,
                 'objective': {'kind': 'quad', 'c': [round(rng.uniform(a + 0.2 * (b - a), b - 0.2 * (b - a)), 3) for a, b in zip(lo, hi)]}}
-        if i % 2:
+        if i % 3 == 2:      # a refinement that improved the record, then the objective fails inside the next Solve
+            case['fail_at'] = 60 + 80 + rng.randint(2, 5); case['iters'] = 400; case['eps'] = 1e-9
+            script = [('iter', 60), ('refine', 40), ('solve',)]
+        elif i % 2:
             script = [('iter', 60), ('refine', 40), ('refine', rng.choice([3, 4]))]
         else:
             case['refine'] = True
